@@ -259,6 +259,10 @@ func runOne(t *testing.T, sc scenario, c *mc.Chooser) (out mc.Outcome) {
 		out.Violations = append(out.Violations, fmt.Sprintf("panic: %v\n%s", res.Panic, res.Stack))
 		out.Sigs = append(out.Sigs, "panic")
 	}
+	if res.Hang != "" {
+		out.Violations = append(out.Violations, "scenario "+sc.name+": "+res.Hang)
+		out.Sigs = append(out.Sigs, "hang:"+sc.name)
+	}
 	if res.Deadlock != "" {
 		out.Obs += " DEADLOCK"
 		out.Violations = append(out.Violations, "goroutines blocked forever at the end of the execution: "+res.Deadlock)
